@@ -345,6 +345,16 @@ def _campaign(rng, tier, nspecs, nvals, opts, tag, with_clone, with_catalog=True
                     lead = 1 + rng.below(9)
                     greqs.append("genval %d %s %d %d" % (k, ty, seed, lead))
                     gmeta.append((k, ty, lead, -1))
+    # types that are recursive through a counted array: a path of one-element arrays nested far deeper than any random value
+    # (a limit on the nesting of arrays, a recursion guard, a per-level cost would show here)
+    for k, rep in enumerate(loaded):
+        if batch.status.get(str(k)) != "ok":
+            continue
+        for ty in array_recursive(cases_spec[k].get("items") or []):
+            if ty in tnames(k, rep):
+                for depth in ((65, 200) if tier == "quick" else (64, 65, 130, 300, 1000)):
+                    greqs.append("gendeep %d %s %d %d" % (k, ty, rng.below(1 << 30), depth))
+                    gmeta.append((k, ty, 0, -1))
     gout = run_driver(spec_lines + greqs)[len(spec_lines):]
     # values that are one item over a declared maximum at one position, with all their bytes present
     oreqs, ometa = [], []
